@@ -511,6 +511,9 @@ def part2(ctx: core.Ctx):
     ctx.tlc(des, "ConstCache_design.cfg")
     if not des.ok:
         raise core.MachineryError(f"design-level cache model violates {des.violated}")
+    vac = core.run_tlc("ConstCache", "ConstCache_vacuity.cfg", timeout=600)
+    if vac.ok:
+        raise core.MachineryError("vacuity: CacheSound cannot fail even with the pinned-tree deviations")
     states = [s for s in res.dump if len(s["hist"]) >= 1]
     # maximal histories only (every prefix is replayed on the way)
     maxlen = max(len(s["hist"]) for s in states)
